@@ -2,6 +2,12 @@
 add('C01', 'recorder on the real athlon_score + exact Decimal oracle over grid sweeps',
     'Every observed call of the real score function on a 0.01-grid mark is compared with an exact-arithmetic evaluation of the published formula; quick sweeps boundary windows, strided and random marks and 16 ages for all rows, thorough the complete grid and ages 1..110. Held-on-what-was-executed, not a proof.',
     'Trusts the pinned copy of the published coefficients and the 60-digit Decimal power near integer boundaries.', 'C01')
+add('C09', 'recorder on the real inverse function, two-sided condition decided with the real score; exhaustive targets',
+    'Every row x every integer target of the stated range is executed; the answer and its next-worse grid neighbour are scored with the real forward function. Exhaustive over the target range named by the property; unknown pairs and negative targets included.',
+    'The real athlon_score is the oracle (the property relates the two functions); C01 establishes that function separately.', 'C09')
+add('C06', 'recorders on round_up_str_num / format_seconds_as_time / parse_hms with integer/Fraction oracles over enumerated strings and duration grids',
+    'Enumerates the digit-string domain (bounded fraction alphabets beyond 3-4 digits), the 0.001 s grid with hour/minute carry windows and float residues, and 1-3 field h:m:s strings plus junk; each observed call judged online. Exploration, not proof.',
+    'Digits beyond the fifth decimal treated as noise exactly as the property says; float comparisons use 1e-9 slack.', 'C06')
 _all = ['C%02d' % i for i in range(1, 20)]
 for p in _all:
     if p not in CHECKS:
